@@ -38,3 +38,17 @@ fire("C47", "wire-manager-created-once-per-estimate-callable",
 silent("C47", "wire-manager-created-before-the-queue-in-the-same-call",
        [(_EST, "        with AnnotatedQueue() as q:\n            workflow(*args, **kwargs)\n\n        wire_manager = WireResourceManager(zeroed, any_state, 0, tight_budget)\n",
                "        wire_manager = WireResourceManager(zeroed, any_state, 0, tight_budget)\n        with AnnotatedQueue() as q:\n            workflow(*args, **kwargs)\n\n")])
+
+# --- R-C47-collapse
+_SYM = "pennylane/estimator/ops/op_math/symbolic.py"
+fire("C47", "prod-factor-pairs-grouped-by-dict",
+     (_SYM, "        return [GateCount(cmpr_op, count) for cmpr_op, count in cmpr_factors_and_counts]\n",
+      "        grouped_counts = dict(cmpr_factors_and_counts)\n        return [GateCount(cmpr_op, count) for cmpr_op, count in grouped_counts.items()]\n"),
+     "R-C47-collapse", "grouped_counts")
+fire("C47", "prod-factor-pairs-grouped-by-dictcomp",
+     (_SYM, "        return [GateCount(cmpr_op, count) for cmpr_op, count in cmpr_factors_and_counts]\n",
+      "        by_op = {o: c for o, c in cmpr_factors_and_counts}\n        return [GateCount(o, c) for o, c in by_op.items()]\n"),
+     "R-C47-collapse", "by_op")
+silent("C47", "prod-factor-pairs-summed-in-defaultdict",
+       [(_SYM, "        return [GateCount(cmpr_op, count) for cmpr_op, count in cmpr_factors_and_counts]\n",
+         "        totals = {}\n        for cmpr_op, count in cmpr_factors_and_counts:\n            totals[cmpr_op] = totals.get(cmpr_op, 0) + count\n        return [GateCount(cmpr_op, count) for cmpr_op, count in totals.items()]\n")])
